@@ -18,6 +18,7 @@ import (
 	"context"
 	"errors"
 	"fmt"
+	"math"
 	"sort"
 	"strings"
 	"sync"
@@ -534,12 +535,9 @@ func (d *Datastore) runDeviationUpdate(ctx context.Context, dm map[string]sdcpb.
 			continue
 		}
 
-		intentsUpdates := d.cacheClient.Read(ctx, d.Name(), &cache.Opts{
-			Store:         cachepb.Store_INTENDED,
-			Owner:         "",
-			Priority:      0,
-			PriorityCount: 0,
-		}, [][]string{upd.GetPath()}, 0)
+		// read the entries of all the intents (not only the ones of the highest priority), the
+		// lower precedence intents are needed to report the OVERRULED deviations
+		intentsUpdates := d.readIntentsOfPath(ctx, upd.GetPath())
 		if len(intentsUpdates) == 0 {
 			log.Debugf("%s: has unhandled config %v: %v", d.Name(), upd.GetPath(), v)
 			// TODO: generate an unhandled config deviation
@@ -739,6 +737,22 @@ func (d *Datastore) runDeviationUpdate(ctx context.Context, dm map[string]sdcpb.
 	d.md.Lock()
 	d.currentIntentsDeviations = newDeviations
 	d.md.Unlock()
+}
+
+// readIntentsOfPath reads the entries that the intents hold for exactly the given path, across all priorities.
+func (d *Datastore) readIntentsOfPath(ctx context.Context, path []string) []*cache.Update {
+	upds := d.cacheClient.Read(ctx, d.Name(), &cache.Opts{
+		Store:         cachepb.Store_INTENDED,
+		PriorityCount: math.MaxInt32,
+	}, [][]string{path}, 0)
+	result := make([]*cache.Update, 0, len(upds))
+	for _, u := range upds {
+		// the cache also returns the entries below the path
+		if len(u.GetPath()) == len(path) {
+			result = append(result, u)
+		}
+	}
+	return result
 }
 
 // DatastoreRollbackAdapter implements the types.RollbackInterface and encapsulates the Datastore.
